@@ -67,7 +67,10 @@ def present_vec(ex, st):
 
 
 def in_scope(lo, hi, i):
-    return z3.And(z3.ULE(lo, i), z3.ULT(i, hi)) if not (isinstance(lo, int) and isinstance(hi, int)) else (lo <= i < hi)
+    if isinstance(lo, int) and isinstance(hi, int) and isinstance(i, int):
+        return lo <= i < hi
+    b = lambda x: z3.BitVecVal(x, 64) if isinstance(x, int) else x
+    return z3.And(z3.ULE(b(lo), b(i)), z3.ULT(b(i), b(hi)))
 
 
 def invariant(ex, st):
@@ -160,7 +163,14 @@ def install_nondet(models, variants=None):
     models["NondetParser as Parser::eval"] = m_eval
 
     def m_meta(ex, c, args):
-        raise Unmodelled("meta() of the nondeterministic parser")
+        # the shape `adjacent` needs: a group that starts with a required flag
+        L = ex.prog.layout
+        sl = Adt("ShortLong", L.variant_index("ShortLong", "Short"), (ord("x"),))
+        vi = L.variant_index("Item", "Flag")
+        fl = L.adts["Item"]["variants"][vi][1]
+        d = {"name": sl, "shorts": Seq((ord("x"),)), "env": NONE, "help": NONE}
+        item = Adt("Item", vi, tuple(d[f] for f in fl))
+        return Adt("Meta", L.variant_index("Meta", "Item"), (item,))
     models["NondetParser as Parser::meta"] = m_meta
 
 
